@@ -45,7 +45,7 @@ def special_frame(rng, n):
 
 
 def run(plan):
-    s = Session(plan)
+    s = Session(plan, max_iterations=6000)
     w = s.world
     dev = s.dev
     res = Result()
